@@ -60,6 +60,11 @@ class C12(Prop):
                 "reply_at": draw(st.sampled_from([0, 2, 4, 6, 9, 13, 18, 25])),
                 "snap": draw(st.sampled_from([0, 1, 1, 2, 2, 3, 3, 4, 5, 6, 7, 8, 10, 12, 15, 20])),
                 "ties": draw(st.lists(st.integers(0, 7), max_size=8)),
+                # K more work items that carry NO payload at all (equal-valued events, as a plain `Tick()` fan-out produces),
+                # processed by their own step with fewer workers than items: some run while equal ones are still queued
+                "anon": draw(st.sampled_from([0, 0, 2, 3, 4])),
+                "anon_workers": draw(st.integers(1, 2)),
+                "anon_d": draw(st.sampled_from([1, 2, 3])),
             }
 
         from .c08 import C08
@@ -199,10 +204,27 @@ class C12(Prop):
         jobs = case["jobs"]
         N = len(jobs)
 
+        K = case.get("anon", 0)
+
         async def start(self, ctx, ev):
             for i in range(N):
                 ctx.send_event(rec.mk("E1", "send", idx=i))
+            for _ in range(K):
+                ctx.send_event(ge.E0())
             return None
+
+        async def anon(self, ctx, ev):
+            ent = {"seg": rec.segment, "t_in": VClock.t, "t_out": None, "exit": None}
+            log.setdefault("anon", []).append(ent)
+            try:
+                await asyncio.sleep(case.get("anon_d", 1))
+                ent["exit"] = "returned"
+                return ge.E4()
+            except asyncio.CancelledError:
+                ent["exit"] = "cancelled"
+                raise
+            finally:
+                ent["t_out"] = VClock.t
 
         async def work(self, ctx, ev):
             i = ev.get("idx")
@@ -227,10 +249,10 @@ class C12(Prop):
                 ent["t_out"] = VClock.t
 
         async def gather(self, ctx, ev):
-            got = ctx.collect_events(ev, [ge.E2] * N)
+            got = ctx.collect_events(ev, [ge.E2] * N + [ge.E4] * K)
             if got is None:
                 return None
-            ids = sorted(e.get("idx") for e in got)
+            ids = sorted(e.get("idx") for e in got if isinstance(e, ge.E2))
             log["gathered"].append({"ids": ids, "seg": rec.segment, "t": VClock.t})
             if case["gather_post"]:
                 await asyncio.sleep(case["gather_post"])
@@ -259,11 +281,12 @@ class C12(Prop):
         Nn = type(None)
         U = typing.Union
         members = {
-            "start": step(ann(start, "start", ge.GStart, U[ge.E1, Nn])),
+            "start": step(ann(start, "start", ge.GStart, U[ge.E1, ge.E0, Nn] if K else U[ge.E1, Nn])),
+            **({"anon": step(num_workers=case.get("anon_workers", 1))(ann(anon, "anon", ge.E0, U[ge.E4, Nn]))} if K else {}),
             "work": step(num_workers=case["workers"], retry_policy=rp.retry_policy(wait=rp.wait_fixed(case["retry_wait"]), stop=rp.stop_after_attempt(case["attempts"])))(
                 ann(work, "work", ge.E1, U[ge.E2, Nn])
             ),
-            "gather": step(num_workers=case["gather_workers"])(ann(gather, "gather", ge.E2, U[ge.E3, Nn])),
+            "gather": step(num_workers=case["gather_workers"])(ann(gather, "gather", U[ge.E2, ge.E4] if K else ge.E2, U[ge.E3, Nn])),
             "ask": step(ann(ask, "ask", ge.E3, ge.GStop)),
         }
         cls = type("C12Wf", (Workflow,), members)
@@ -350,6 +373,11 @@ class C12(Prop):
         for name, n in (("queued", queued), ("running", running), ("collecting", collecting), ("waiting", waiting), ("retry_backoff", len(backoff))):
             if n:
                 r.classes.append("snap_" + name)
+        if case.get("anon"):
+            r.classes.append("payloadless_items")
+            aw = d.get("workers", {}).get("anon", {})
+            if aw.get("in_progress") and aw.get("queue"):
+                r.classes.append("snap_equal_events_running_and_queued")
         r.nontrivial = bool(queued or running or collecting or waiting or backoff)
         attrs = dict(retry_backoff_pending=bool(backoff), in_flight_with_failures=any(fails0.get(i) for i in in_flight))
 
